@@ -52,6 +52,10 @@ structure C18Obs where
 deriving DecidableEq
 
 def handleC18 (inp obs : List String) : Verdict :=
+  -- large histories (> Large.threshold intervals): spec only, near-linear time (Driver/Large.lean)
+  match Large.c18? false inp obs with
+  | some v => v
+  | none =>
   let parsed := (do let h ← pHist; let qs ← many pQ; let probe ← pIv; pure (h, qs, probe)).run inp
   let pobs : Option (Option C18Obs × List String) := (do
     match (← peek?) with
@@ -118,6 +122,10 @@ structure C19Obs where
 deriving DecidableEq
 
 def handleC19 (inp obs : List String) : Verdict :=
+  -- large histories (> Large.threshold intervals): spec only, near-linear time (Driver/Large.lean)
+  match Large.c19? false inp obs with
+  | some v => v
+  | none =>
   let parsed := (do let a ← pHist; let b ← pHist; pure (a, b)).run inp
   let pobs : Option (Option C19Obs × List String) := (do
     match (← peek?) with
@@ -168,6 +176,10 @@ def handleC19 (inp obs : List String) : Verdict :=
 
 /-! ## C20 -/
 def handleC20 (inp obs : List String) : Verdict :=
+  -- large histories (> Large.threshold intervals): spec only, near-linear time (Driver/Large.lean)
+  match Large.c20? false inp obs with
+  | some v => v
+  | none =>
   let parsed := pHist.run inp
   let pobs : Option (Option (List (Iv Nat)) × List String) := (do
     match (← peek?) with
